@@ -2,6 +2,7 @@
 //! C32 desc, C30 csm, C29 map32, C31 sft
 pub mod csm;
 pub mod desc;
+pub mod map32;
 pub mod resolve;
 
 use mmtk::util::heap::vm_layout::VMLayout;
@@ -61,6 +62,7 @@ pub fn dispatch(tokens: &[&str]) -> Option<String> {
     Some(match *c {
         "desc" => desc::run(args),
         "csm" => csm::run(args),
+        "map32" => map32::run(args),
         "resolve" => resolve::run(args),
         _ => return None,
     })
